@@ -213,6 +213,91 @@ def install(eng):
     eng.reversed_handlers[nm.STuple] = lambda e, t: RevView(t)
     eng.reversed_handlers[AbsList] = lambda e, a: RevView(a)
 
+    # -- random access / slicing / concatenation of a list that is one plain
+    # segment (the input list of introduce_variables) -----------------------
+    def plain_seq(a):
+        if len(a.parts) == 1 and isinstance(a.parts[0], Seg) and \
+                a.parts[0].wrap is None and not a.parts[0].rev and \
+                a.parts[0].cond is None:
+            return a.parts[0]
+        return None
+
+    def whole_seq(e, a):
+        """z3 sequence of the structures of a list of nodes"""
+        out = []
+        for part in a.parts:
+            if isinstance(part, tuple):
+                out.append(z3.Unit(nm.S(part[1])))
+            elif isinstance(part, Seg) and part.wrap is None and \
+                    part.cond is None and not part.rev:
+                out.append(part.seq)
+            else:
+                raise Unsupported('sequence view of this abstract list')
+        if not out:
+            return z3.Empty(SeqS)
+        return out[0] if len(out) == 1 else z3.Concat(*out)
+
+    eng.whole_seq = whole_seq
+
+    def abs_len(e, a):
+        n = z3.IntVal(0)
+        for part in a.parts:
+            if isinstance(part, tuple):
+                n = n + 1
+            elif isinstance(part, Seg):
+                n = n + part.length()
+            elif z3.is_expr(part.den) and part.den.sort() == z3.IntSort():
+                n = n + part.den
+            else:
+                raise Unsupported('len() of a list with an opaque part')
+        return sym.mk_num(z3.simplify(n))
+
+    eng.len_handlers[AbsList] = abs_len
+
+    def abs_getitem(e, a, key):
+        sg = plain_seq(a)
+        if sg is None:
+            raise Unsupported('indexing an abstract list that is not one '
+                              'plain segment')
+        n = z3.Length(sg.seq)
+        if isinstance(key, slice):
+            if key.step not in (None, 1):
+                raise Unsupported('slice with a step')
+            lo = 0 if key.start is None else key.start
+            hi = n if key.stop is None else key.stop
+            lo = lo.z if isinstance(lo, SNum) else lo
+            hi = hi.z if isinstance(hi, SNum) else hi
+            p = cur()
+            # within bounds (Python clamps; the contract states the bounds)
+            if not e.truth(mk_bool(z3.And(0 <= lo, lo <= hi, hi <= n))):
+                raise Unsupported('slice bounds outside 0 <= lo <= hi <= len')
+            return AbsList(e, [Seg(z3.SubSeq(sg.seq, lo, hi - lo), None,
+                                   False, sg.name)])
+        k = key.z if isinstance(key, SNum) else key
+        if isinstance(k, bool) or not (isinstance(k, int) or z3.is_expr(k)):
+            raise PyRaise(TypeError('list indices must be integers'))
+        if e.truth(mk_bool(z3.And(k >= 0, k < n))):
+            idx = k
+        elif e.truth(mk_bool(z3.And(k < 0, k >= -n))):
+            idx = k + n
+        else:
+            raise PyRaise(IndexError('list index out of range'))
+        p = cur()
+        return nm.lazy_node(e, p, p.fresh_name(sg.name), sterm=sg.seq[idx])
+
+    eng.getitem_handlers[AbsList] = abs_getitem
+
+    import ast as _ast
+
+    def abs_add(e, op, x, y):
+        if not isinstance(x, (AbsList, list)) or not isinstance(
+                y, (AbsList, list)):
+            return NotImplemented
+        return AbsList(e, as_abs(e, x).parts + as_abs(e, y).parts)
+
+    eng.binop_handlers[(_ast.Add, AbsList)] = abs_add
+    eng.binop_handlers[(_ast.Add, None, AbsList)] = abs_add
+
     def comp(e, it, node, env, mod, clsctx):
         """[elt for target in <abstract sequence>] without conditions."""
         import ast
